@@ -66,6 +66,9 @@ class PropertyGroup(ABC):
                 f"Parent {parent} must have a 'property_groups' attribute"
             )
 
+        if parent.workspace.find_entity(self.uid) is not None:
+            raise RuntimeError(f"Key '{self.uid}' already used.")
+
         self._parent: ObjectBase = parent
         self._properties: list[uuid.UUID] | None = None
         self._property_group_type = property_group_type
